@@ -21,7 +21,8 @@ LEVEL = 'exploration'
 RULE = ('skeletons = IF(c,a,b) | IF(c,a) | IFS(c,a) | IFS(c,a,c,b) | IFERROR(a,b) with every value slot a leaf or a nested skeleton: all 125 '
         'skeletons of depth <=2 (thorough: + sampled depth 3), each in 10 contexts (bare, X+1, 1+X, X*2, X&"z", "z"&X, X>1, SUM(X,1), '
         'ROUND(X,0), LEFT(X,1), IF(X>0,"p","q")); leaves from {number, text, canary formula cells, failing 1/0, failing cell =1/0, error '
-        'texts #N/A #VALUE! #DIV/0! #REF!, failing lookup}; conditions are distinct cells swept over ALL truth assignments (<=32) with '
+        'texts #N/A #VALUE! #DIV/0! #REF! #NULL! #NUM!, lookups that miss, and expressions failing in other ways: MONTH/YEAR/DAY of a text, '
+        'VLOOKUP column beyond the table, INDEX beyond the area, MID position 0, LEFT count -1}; conditions are distinct cells swept over ALL truth assignments (<=32) with '
         '0/1, FALSE/TRUE and other non-zero numbers. Non-trivial: the formula has >= 2 conditions or a failing/error leaf in a '
         'branch that is not taken under the assignment; distinct by (formula, assignment)')
 ASSUMPTIONS = ['vf/xlref lazy semantics = the clauses of the statement; text conditions are not generated',
@@ -35,9 +36,10 @@ CONDS = [f'C{i}' for i in range(1, 9)]
 CANARY = {'N1': '=100+1', 'N2': '=200+2', 'N3': '=300+3', 'T1': '="ab"&"c"', 'T2': '="xy"&"z"', 'E1': '=1/0', 'E2': '=1/0'}
 BASE = {'K1': 1, 'L1': 10, 'K2': 2, 'L2': 20, **CANARY}
 NUM_OK = ['7', '2.5', 'N1', 'N2', 'N3', 'VLOOKUP(2,K1:L2,2,FALSE)', '0', '12', 'N1*2', '(N2-1)']
-NUM_ERR = ['1/0', 'E1', 'E2', 'VLOOKUP(99,K1:L2,2,FALSE)', '"#N/A"', '"#DIV/0!"']
+NUM_ERR = ['1/0', 'E1', 'E2', 'VLOOKUP(99,K1:L2,2,FALSE)', '"#N/A"', '"#DIV/0!"', 'MONTH(T1)', 'YEAR(T2)', 'VLOOKUP(2,K1:L2,5,FALSE)', 'INDEX(K1:L2,5,1)',
+           'MATCH(99,K1:K2,0)', 'SEARCH("z","abc")', 'DAY("abc")']
 TXT_OK = ['"t"', '"uv"', 'T1', 'T2', 'LEFT("qrs",2)', '"w"&"x"']
-TXT_ERR = ['1/0', 'E1', '"#VALUE!"', '"#REF!"', '"#NULL!"', '"#NUM!"']
+TXT_ERR = ['1/0', 'E1', '"#VALUE!"', '"#REF!"', '"#NULL!"', '"#NUM!"', 'MID("abc",0,1)', 'LEFT("abc",-1)', 'MONTH(T1)', 'VLOOKUP(2,K1:L2,5,FALSE)']
 
 
 class Leaves:
@@ -215,7 +217,7 @@ def run_items(ctx, items, tag):
                     if extra:
                         case['spec'] = {'sheets': [wbspec.sheet('S', {**BASE, **{c: 1 for c in CONDS}, a: f})]}
                         report(r, ID, None, case, sorted(extra), 'cells of the untaken branch are not evaluated', monitor='untaken-branch-evaluated')
-                hidden_fail = bool(re.search(r'1/0|E1|E2|"#', f))
+                hidden_fail = bool(re.search(r'1/0|E1|E2|"#|MONTH|YEAR|DAY|,5,|,5\)|\(99|"z"|,0,1|-1\)', f))
                 if len(used) >= 2 or hidden_fail:
                     r.nt((f, repr(val)))
     r.sample({'formulas': [i[0] for i in items[:8]]})
